@@ -84,26 +84,43 @@ def check(ctx):
     del ok_open, closing
     d = lj.func("dumps")
     ddefs = df.all_defs(d)
-    iloc = ddefs.get("iloc", [])
-    v = const_value(iloc[0].value) if len(iloc) == 1 else None
-    ctx.ob("R1", f"{LJ}:dumps", f"iloc constant equals the position of {{index}} in JSON_FORMAT ({want_iloc})", v == want_iloc, key="dumps|iloc", detail=f"found {v}", where=loc(d))
-    dloc = ddefs.get("dloc", [])
-    gap = None
-    if len(dloc) == 1:
-        consts = [n.value for n in ast.walk(dloc[0].value) if isinstance(n, ast.Constant) and isinstance(n.value, int)]
-        names = df.names_read(dloc[0].value)
-        if len(consts) == 1 and {"iloc", "ilen"} <= names:
-            gap = consts[0]
-    ctx.ob("R1", f"{LJ}:dumps", f"dloc = iloc + ilen + <length of the literal between index and data> ({want_gap})", gap == want_gap, key="dumps|dloc-gap", detail=f"found {gap}", where=loc(d))
-    # format call passes all six fields by name, ilen/dlen are len() of the strings actually inserted
+    # name independent: everything is read off the keyword arguments of JSON_FORMAT.format(...), with
+    # single-definition locals substituted to a fixpoint
+    from ..engine import dtable as _dt
+
+    env_ = {n_: ds_[0].value for n_, ds_ in ddefs.items() if len(ds_) == 1 and ds_[0].kind == "assign" and "." not in n_ and not (isinstance(ds_[0].value, ast.Call) and call_name(ds_[0].value) not in ("len",))}
+
+    def full(e):
+        for _ in range(6):
+            e2 = _dt.subst(e, env_)
+            if unparse(e2) == unparse(e):
+                break
+            e = e2
+        return e
+
+    def lin(e):
+        """(constant sum, sorted other terms) of a sum expression"""
+        if isinstance(e, ast.BinOp) and isinstance(e.op, ast.Add):
+            a_, b_ = lin(e.left), lin(e.right)
+            return (a_[0] + b_[0], sorted(a_[1] + b_[1]))
+        if isinstance(e, ast.Constant) and isinstance(e.value, int) and not isinstance(e.value, bool):
+            return (e.value, [])
+        return (0, [unparse(e)])
+
     fcall = [c for c in calls_in(d) if call_name(c) == "JSON_FORMAT.format"]
-    ok = len(fcall) == 1 and {k.arg for k in fcall[0].keywords} == {"index", "data", "iloc", "ilen", "dloc", "dlen"}
-    if ok:
-        kw = {k.arg: unparse(k.value) for k in fcall[0].keywords}
-        il = ddefs.get("ilen", [])
-        dl = ddefs.get("dlen", [])
-        ok = len(il) == 1 and unparse(il[0].value) == f"len({kw['index']})" and len(dl) == 1 and unparse(dl[0].value) == f"len({kw['data']})"
-    ctx.ob("R1", f"{LJ}:dumps", "ilen/dlen are the lengths of the very strings inserted as index/data", ok, key="dumps|lengths")
+    if len(fcall) != 1 or {k.arg for k in fcall[0].keywords} != {"index", "data", "iloc", "ilen", "dloc", "dlen"} or fcall[0].args:
+        ctx.ob("R1", f"{LJ}:dumps", "JSON_FORMAT.format passes exactly the six fields by name", False, key="dumps|format-call", where=loc(d))
+    else:
+        kw = {k.arg: k.value for k in fcall[0].keywords}
+        idx_t, data_t = unparse(kw["index"]), unparse(kw["data"])
+        v_iloc = lin(full(kw["iloc"]))
+        ctx.ob("R1", f"{LJ}:dumps", f"iloc constant equals the position of {{index}} in JSON_FORMAT ({want_iloc})", v_iloc == (want_iloc, []), key="dumps|iloc", detail=f"found {v_iloc}", where=loc(d))
+        v_ilen, v_dlen = lin(full(kw["ilen"])), lin(full(kw["dlen"]))
+        ok = v_ilen == (0, [f"len({idx_t})"]) and v_dlen == (0, [f"len({data_t})"])
+        ctx.ob("R1", f"{LJ}:dumps", "ilen/dlen are the lengths of the very strings inserted as index/data", ok, key="dumps|lengths", detail=f"ilen={v_ilen} dlen={v_dlen}")
+        v_dloc = lin(full(kw["dloc"]))
+        ok = want_gap is not None and v_dloc == (want_iloc + want_gap, [f"len({idx_t})"])
+        ctx.ob("R1", f"{LJ}:dumps", f"dloc = iloc + ilen + <length of the literal between index and data> ({want_gap})", ok, key="dumps|dloc-gap", detail=f"found {v_dloc}", where=loc(d))
     for w in ("iloc", "ilen", "dloc", "dlen"):
         ctx.ob("R1", f"{LJ}:JSON_FORMAT", f"field {w} is right-aligned to a fixed width (so later positions are constant)", layout[w][1] is not None and layout[w][1] >= 10, key=f"format|{w}-width")
     li = lj.func("LazyJSON._load_index")
@@ -178,7 +195,7 @@ def check(ctx):
         sk = [s for s in par.body if any(call_name(x) == "self.skip" and x.args and const_value(x.args[0]) == 1 for x in calls_in(s))] if isinstance(par, ast.If) else []
         ctx.ob("R3", f"{HJ}:JsonHistoryFlusher.dump", f"the command filtered out under `{short(par.test, 50)}` is accounted by skip(1)", bool(sk), key=f"dump|unaccounted-skip|{short(par.test, 40)}", where=loc(c.ast))
     # kept commands are appended in buffer order
-    ext = [n for n in dcfg.nodes if n.kind == "stmt" and any(last_attr(c) == "extend" and unparse(c.func.value) == "hist['cmds']" and c.args and isinstance(c.args[0], ast.Name) for c in calls_in(n.ast))]
+    ext = [n for n in dcfg.nodes if n.kind == "stmt" and any(last_attr(c) == "extend" and isinstance(c.func.value, ast.Subscript) and const_value(c.func.value.slice) == "cmds" and c.args and isinstance(c.args[0], ast.Name) for c in calls_in(n.ast))]
     kept_names = set()
     ddefs_ = df.all_defs(du)
     for n in ext:
@@ -248,7 +265,8 @@ def check(ctx):
         once = once and o
     ctx.ob("R5", f"{BS}:BaseShell.default", "_append_history runs at most once per command", once and bool(app), key="default|double-entry")
     ah = bs.func("BaseShell._append_history")
-    ok = sum(1 for c in calls_in(ah) if call_name(c) == "hist.append") == 1
+    HIST = names_bound_to_text(ah, "XSH.history") | {"XSH.history"}
+    ok = sum(1 for c in calls_in(ah) if isinstance(c.func, ast.Attribute) and c.func.attr == "append" and unparse(c.func.value) in HIST) == 1
     ctx.ob("R5", f"{BS}:BaseShell._append_history", "appends exactly one entry to the history backend", ok, key="append_history|count")
 
 
